@@ -98,6 +98,17 @@ REGISTRY = {
         'assumptions': ['NAME fields within their J1939-81 ranges', 'encoder entries use the four supported addresses'],
         'trusted': ['modelled, not verified: j1939::NameBuilder/Name::to_bytes, protocol::request/address_claimed, toml/serde deserialisation, chrono time for the time/date reply'],
     },
+    'C14': {
+        'rule': 'real UnixServer with 1-4 concurrent sessions over real Unix sockets and the real signal broadcast channel (current-thread runtime, only one input source pending whenever the session tasks run): all 32 flag combinations with names (empty, ASCII, 64/65+ chars, multi-byte, invalid UTF-8) x bursts of 1,15,16,17,40 signals published back-to-back; random scripts of session (re-)registrations incl. failed upgrades, commands, publications of every signal kind (engine, motion, control, target, rotator, module status) with bursts up to 40, and disconnects (600 quick / 6k thorough); '
+                'bytes received by every client are split into frames by the harness (frame boundaries intact) and compared with the extracted model; C14 predicate on the real observation (one identity per decodable upgrade; a streaming open session receives exactly the last min(16,k) signals of a burst in order, as frames equal to the object\'s encoding; others nothing); glonax::is_compatibile for every (major, minor) pair (thorough; 1/5 + neighbourhood of 3.5 and 3.50..3.59 quick); non-trivial = a publication or a compatibility query; distinct by case text',
+        'exhaustive': {'quick': False, 'thorough': False},
+        'level_text': 'Theorems C14_handshake, C14_stream (after ANY publication history a streaming session that runs receives exactly the retained signals from max(cursor, tail-16), in order; a non-streaming one nothing), C14_no_overflow_complete, C14_lag_loses_oldest_block, C14_sessions_independent (publishing never waits; what one session receives does not depend on the others), C14_frames_decode (C13 round trip) and C14_compat (iff) are proved about the Gallina session + broadcast model; tied to the real server by differential execution with bursts around the queue capacity.',
+        'level_note': 'partial: tokio select! chooses at random between a ready signal and ready client bytes, so the relative order of identity replies and forwarded signals is not fixed by the code; the theorems are per input source and the real server is driven with one source pending at a time. Real-time fairness of the multi-thread scheduler is outside the model. A client that stops reading (daemon blocks in write) is outside the model. Trusted: kernel, extraction, drv.ml, harness.',
+        'technique': 'Rocq proof (closed form of the receiver drain by induction; independence by construction) + differential execution of real sessions with controlled bursts',
+        'explanation': 'seven theorems in Properties/C14.v',
+        'assumptions': ['the daemon identity is the one the harness installs (compared byte for byte)', 'rotation words of forwarded Target/Rotator signals are compared after zeroing (euler re-parameterisation)'],
+        'trusted': ['modelled, not verified: tokio broadcast, select!, Unix sockets'],
+    },
     'C15': {
         'rule': 'real Runtime::schedule_net_service (the real command task and broadcast channel) with a recording, gated mock NetworkService and a producer Service that hands the real CommandSender to the harness, on a current-thread runtime (tasks run only when the harness yields): bursts of 1,2,15,16,17,18,31,32,33,40,100,1000 commands + a final stop-all x handler idle / holding one / holding after two x 0/1/5 granted completions x 1-2 networks, then drained; '
                 'random schedules of send / grant / run-until-blocked with four relative speeds (3k quick / 30k thorough); processed commands per network compared with the extracted model (micro-step semantics of the bus and the task loop); C15 predicate on the real observation: processed is an in-order subsequence of sent, after draining the last min(16,n) sent commands (incl. the stop-all) were processed, and nothing is lost when at most 16 were sent between quiescence points; '
